@@ -327,6 +327,21 @@ def bergluescher_integer(ctx):
                   got=q2, n=n2, cell=cell2, tool="topological_charge", method="berg-luescher",
                   texture=kind2, note="twice the lattice charge of a texture with a uniform rim is not a whole number")
         ctx.event("bl.%s.charge_%s" % (kind2, round(2 * q2) / 2))
+        if kind2 == "noise":
+            # sharp domain walls: some neighbours exactly antiparallel (the spherical
+            # triangle is degenerate there, so no particular number is demanded - but the
+            # charge is a number, before and after a global rotation of all vectors)
+            a3 = a2.copy()
+            for _ in range(int(rng.integers(1, 4))):
+                i3, j3 = int(rng.integers(2, n2[0] - 3)), int(rng.integers(2, n2[1] - 2))
+                a3[i3 + 1, j3] = -a3[i3, j3] * rng.uniform(0.5, 2)
+            Rm = rand_rotation_matrix(rng)
+            for arr3, tag in ((a3, "as generated"), (a3 @ Rm.T, "globally rotated")):
+                q3 = dft.topological_charge(
+                    df.Field(f2.mesh, nvdim=3, value=arr3), method="berg-luescher")
+                ctx.check("C19.bergluescher.finite", bool(np.isfinite(q3)), got=q3, n=n2,
+                          vectors=tag, tool="topological_charge", method="berg-luescher",
+                          note="antiparallel neighbouring vectors")
     ctx.sig(("bl", Q, pol, masked, dims is None, int(np.floor(np.log10(np.max(cell))))),
             nontrivial=True)
 
